@@ -103,7 +103,8 @@ def main():
                 priv = T.new_private_key(m, q)
                 err = m.call(SECEC + 'verify', [priv, X.NILPTR, m.new_byte_slice(hb, 'digest'), T.new_scalar(m, r), T.new_scalar(m, s)])
                 ctx.check(tm.eq(err is None, spec, 0), 'bv:private-key-arm-accepts-iff-SEC1-4.1.4')
-                return bool(res) if not isinstance(res, tm.T) else None
+                # a result the code left symbolic (e.g. `return a == 0 && bytes.Equal(..)`) is split so that the witness below is semantic
+                return ctx.branch(res) if isinstance(res, tm.T) else bool(res)
             paths = sub.explore('toy(%d,%d)/VerifyRaw@len%d' % (toy.p, toy.n, L), h, mode='bv')
             if L >= 32:
                 sub.add('toy(%d,%d)/VerifyRaw@len%d/witness-accept-and-reject' % (toy.p, toy.n, L), [], {p.value for p in paths} >= {True, False})
@@ -151,7 +152,8 @@ def main():
                         base = base2
                     spec = base
                 ctx.check(tm.eq(res, spec, 0), 'bv:Verify-accepts-iff-spec')
-                return bool(res) if not isinstance(res, tm.T) else None
+                # a result the code left symbolic (e.g. `return a == 0 && bytes.Equal(..)`) is split so that the witness below is semantic
+                return ctx.branch(res) if isinstance(res, tm.T) else bool(res)
             sub.explore('toy(%d,%d)/Verify[hash=%d,enc=%d,rejectMalleable=%s]@len%d' % (toy.p, toy.n, hashid, enc, malle, L), h, mode='bv')
         return task
     if not only or 'opts' in only:
